@@ -162,10 +162,10 @@ func execute(cfg config) int {
 	start := time.Now()
 	// budget: no batch starts after it; a running `go test` is killed at the hard limit
 	nruns, batch, iters := 12, 6, 8
-	budget, hard := 40*time.Second, 56*time.Second
+	budget, hard := 38*time.Second, 52*time.Second
 	if cfg.thorough {
 		nruns, batch, iters = 80, 16, 16
-		budget, hard = 270*time.Second, 345*time.Second
+		budget, hard = 265*time.Second, 335*time.Second
 	}
 	if cfg.iters > 0 {
 		iters = cfg.iters
